@@ -13,7 +13,7 @@ class TwoRatioMFDeviceSet(MFDeviceSet):
     super().__init__(device, flows)
     if len(flows) != 2:
       raise ValueError('More than two flows not supported.')
-    if ratios is not None and not len(ratios) == len(flows):
+    if ratios is None or not len(ratios) == len(flows):
       raise ValueError('Flows and flow ratios must have same length')
     if constraint_type not in ['eq', 'ineq']:
       raise ValueError('Invalid constraint type')
